@@ -66,10 +66,11 @@ worktree of `/repo` (nothing from `/verif`), asked for a plausible regression th
 114-test baseline keeps passing, with a demonstration program. A change is kept only after I confirmed in a fresh
 scratch worktree that the patch applies, the baseline passes, the demonstration exits 0 without and non-zero with the
 change (`tools/seed_eval.py`, recorded in `seeded/<name>/meta.json`). The check is then run against `/repo` with the
-patch applied (`git -C /repo apply`) and `/repo` is restored straight afterwards. Five rounds were run (`-a` .. `-e`,
-100 changes); later rounds were told to differ from the earlier patches and to need longer histories, more records or rarer
+patch applied (`git -C /repo apply`) and `/repo` is restored straight afterwards. Six rounds were run (`-a` .. `-f`,
+120 changes); later rounds were told to differ from the earlier patches and to need longer histories, more records or rarer
 flags, and the fifth round was told outright to aim at what a checker exploring small configurations overlooks (rarely
-used keyword arguments, other overloads and input kinds, size thresholds, stale state after an interleaving). "first run" says what happened when the change first met the checks as they were then; every miss led to a
+used keyword arguments, other overloads and input kinds, size thresholds, stale state after an interleaving), the sixth
+at state and aliasing (second calls, caches, arguments the caller still owns). "first run" says what happened when the change first met the checks as they were then; every miss led to a
 strengthening of the check (bounds, fixtures, stubs or engine), after which the *quick* tier reports the change with a
 counterexample replayed on the real stack.
 
